@@ -181,7 +181,8 @@ func runWorkers(bin, prop, tier, flavour string, conf propConf, scratch, data st
 				cmd = exec.Command(bin, args...)
 			}
 			cmd.Env = []string{"HOME=" + home, "PATH=/nonexistent", "GOMAXPROCS=1", "TMPDIR=" + wdata,
-				"GORACE=log_path=" + filepath.Join(scratch, fmt.Sprintf("race_%d", i)) + " halt_on_error=0 history_size=2",
+				"GORACE=log_path=" + filepath.Join(scratch, fmt.Sprintf("race_%d", i)) + " halt_on_error=0 exitcode=0 history_size=2",
+				"VERIF_RACELOG=" + filepath.Join(scratch, fmt.Sprintf("race_%d", i)),
 				"GOTRACEBACK=single"}
 			var stderr strings.Builder
 			cmd.Stderr = &stderr
@@ -318,6 +319,13 @@ func main() {
 		os.RemoveAll(data)
 	}
 
+	if replay == "" {
+		// replay files of an earlier run of this check are stale
+		old, _ := filepath.Glob(filepath.Join(verifDir, "replays", prop, "*.json"))
+		for _, f := range old {
+			_ = os.Remove(f)
+		}
+	}
 	flavour := conf.Flavour[tier]
 	bin, stats := buildWorker(scratch, flavour)
 	buildS := time.Since(start).Seconds()
@@ -520,10 +528,12 @@ func raceSignature(rep string) string {
 		}
 		for _, l := range lines {
 			l = strings.TrimSpace(l)
-			if strings.HasPrefix(l, modPath+"/") && !strings.Contains(l, "/verifx/") {
+			if strings.HasPrefix(l, modPath+"/") && !strings.Contains(l, "/verifx/") && !strings.Contains(l, "/cmd/verifworker") {
 				fn := l
-				if i := strings.Index(fn, "("); i > 0 {
+				if i := strings.Index(fn, "("); i > 0 && !strings.HasPrefix(fn[i:], "(*") {
 					fn = fn[:i]
+				} else if j := strings.LastIndex(fn, "("); j > 0 {
+					fn = fn[:j]
 				}
 				fn = strings.TrimPrefix(fn, modPath+"/")
 				frames = append(frames, fn)
